@@ -7,7 +7,7 @@ from harness.lib import catalog, libcheck
 def run(prop, tier, seed, only=None):
     names = sorted(catalog.catalog(tier)) + ["SyntheticMultiAgent"]
     if only:
-        names = [n for n in names if n in only]
+        names = [n for n in names if n in only or n.split(".")[0] in only]
     d = libcheck.trace_dir(prop)
     from harness.lib import sched
 
